@@ -19,7 +19,7 @@ class Contract:
 
     def __init__(self, qual, pre=None, post=None, raises=(), modifies=(), frame=None, loops=None,
                  result=None, allocates=False, params=None, assumptions=(), trusted=False, doc='',
-                 native=None, gen=None, decreases=None, props=(), defs=None, axioms=None, cases=None, preserves=(), ncases=0, tracks=None, heap_axioms=None, publishes=None):
+                 native=None, gen=None, decreases=None, props=(), defs=None, axioms=None, cases=None, preserves=(), ncases=0, tracks=None, heap_axioms=None, publishes=None, join='fresh'):
         self.qual = qual
         self.pre, self.post = pre, post
         self.raises = tuple(raises)
@@ -37,6 +37,7 @@ class Contract:
         self.decreases = decreases
         self.props = tuple(props)
         self.defs = defs
+        self.join = join          # 'fresh': join paths whose heaps differ only on self-allocated objects; 'all': join regardless
         self.publishes = publishes   # (cx) -> (object, field): a store that other threads read; see verify (C20)
         self.heap_axioms = heap_axioms   # (eng, state) -> unfoldings of heap-implicit predicates at that state's heap
         self.tracks = tracks      # callee contracts whose calls the postcondition inspects (None: all)
